@@ -39,7 +39,7 @@ def _action_index(scenario, names):
     if scenario in HE.SHIPPED:
         cfg = HE.load_yaml(HE.SHIPPED[scenario])
     else:
-        cfg = HE.gen_scenario([v for v in HE.GEN if v["name"] == scenario][0])
+        cfg = HE.gen_scenario([v for v in HE.GEN if v["name"] == scenario.split("+")[0]][0])
     blue = [a for a in cfg["agents"] if a["type"] == "proxy-agent"][0]
     amap = blue["action_space"]["action_map"]
     out = []
@@ -69,6 +69,10 @@ def programs(tier):
         for seed in seeds:
             for sc in scripts:
                 P.append({"scenario": scen, "seed": seed, "steps": steps, "script": sc, "episodes": 2})
+    # the scenario configures game.seed and reset() is called with that same value (and with another one)
+    for seed in (0, 7):
+        P.append({"scenario": "gen0+seed=%d" % seed, "seed": seed, "steps": 10, "script": [], "episodes": 2})
+        P.append({"scenario": "gen0+seed=%d" % seed, "seed": seed + 1, "steps": 10, "script": [], "episodes": 2})
     return P
 
 
